@@ -67,9 +67,9 @@ func runC03(c *eng.Ctx, thorough bool) {
 				// a HasParent call with exactly these operands counts; the converse
 				// relation (a.root under the request namespace) must not open the arm.
 				under := eng.Guard{Desc: "requestNS.HasParent(a.root) with requestNS = namespace.FromContext(ctx)"}
-				for _, hp := range eng.Calls(f, `^namespace\.\(\*Namespace\)\.HasParent$`) {
-					a := hp.Common().Args
-					cv, isCall := hp.(*ssa.Call)
+				for _, nc := range nfCalls(f, `^namespace\.\(\*Namespace\)\.HasParent$`) {
+					a := nc.Args
+					cv, isCall := nc.In.(*ssa.Call)
 					if !isCall || len(a) != 2 {
 						continue
 					}
@@ -118,7 +118,7 @@ func runC03(c *eng.Ctx, thorough bool) {
 		}
 		// ---------- C03.4 exact before non-exact
 		c.Clause("R3", "C03.4")
-		c.Before(f, "exact rule lookup", instrsOf(eng.Calls(f, c03RadixGet+`$`)), "non-exact lookup", instrsOf(eng.Calls(f, `CheckAllowedFromNonExactPaths$`)))
+		c.Before(f, "exact rule lookup", gcIns(f, c03RadixGet+`$`), "non-exact lookup", gcIns(f, `CheckAllowedFromNonExactPaths$`))
 		// ---------- C03.2 operation table
 		c.Clause("R7", "C03.2")
 		c03OpTable(c, f)
@@ -380,7 +380,9 @@ func c03CapNames(c *eng.Ctx) {
 	// ACL.Capabilities: (cap & M) > 0  =>  append(..., NAME)
 	if f := c.Fn("policy.(*ACL).Capabilities"); f != nil {
 		seen := map[string]bool{}
-		for _, b := range f.Blocks {
+		// the bit→name chain sits in Capabilities itself or in a same-package function it hands the bitmap to
+		tbl := c03TableBlocks(f)
+		for _, b := range tbl {
 			ifi := eng.IfOf(b)
 			if ifi == nil {
 				continue
@@ -415,19 +417,33 @@ func c03CapNames(c *eng.Ctx) {
 				c.OK(f, "capname{"+name+"}", ifi.Pos(), "bit "+mask+" ↔ "+name)
 			}
 		}
+		if len(seen) == 0 {
+			c.Undecided(f, "capname table", f.Pos(), "no (bitmap & bit) test followed by the append of a capability name in ACL.Capabilities nor in a same-package function it hands the bitmap to: moved? the rule cannot be evaluated")
+		}
 		for name := range name2bit {
+			if len(seen) == 0 {
+				break
+			}
 			if !seen[name] {
 				c.Violation(f, "capname{"+name+"}", f.Pos(), "capability "+name+" is never reported by ACL.Capabilities", nil)
 			}
 		}
 		// it asks AllowOperation for the bitmap of the same path
 		c.Clause("R5", "C03.2")
-		for _, ao := range eng.Calls(f, `policy\.\(\*ACL\)\.AllowOperation$`) {
-			req := ao.Common().Args[2]
-			for _, v := range eng.StructLitField(req, "Path") {
-				c.Prov(f, "path whose capabilities are reported", ao, v, `^param:path$`)
+		aos := gcEffs(f, `policy\.\(\*ACL\)\.AllowOperation$`)
+		if len(aos) == 0 {
+			c.Undecided(f, "prov{path whose capabilities are reported}", f.Pos(), "no call of ACL.AllowOperation in ACL.Capabilities (directly, through a method value, a closure or a same-package helper): moved? the rule cannot be evaluated")
+		}
+		for _, e := range aos {
+			a, ao := gcArgs(e), e.Call.In
+			paths := gcLitField(a[2], e.Fr, "Path")
+			if len(paths) == 0 {
+				c.Undecided(f, "prov{path whose capabilities are reported}", ao.Pos(), "the request handed to AllowOperation is not a literal the rule can see: moved? the rule cannot be evaluated")
 			}
-			if eng.Expr(ao.Common().Args[3]) != "true" {
+			for _, v := range paths {
+				gcProv(c, f, "path whose capabilities are reported", ao, v.V, v.Fr, `^param:path$`)
+			}
+			if !nfIsConst(a[3], e.Fr, "true") {
 				c.Violation(f, "capCheckOnly", ao.Pos(), "Capabilities must call AllowOperation with capCheckOnly=true", nil)
 			}
 		}
@@ -512,6 +528,31 @@ func c03LastArg(cl ssa.CallInstruction) ssa.Value {
 	return a[len(a)-1]
 }
 
+// c03TableBlocks: the blocks of f, or — when f itself holds no (x & const) test
+// — of the same-package functions f calls directly (one level) that do.
+func c03TableBlocks(f *ssa.Function) []*ssa.BasicBlock {
+	has := func(g *ssa.Function) bool {
+		for _, b := range g.Blocks {
+			if ifi := eng.IfOf(b); ifi != nil && andMask(stripNot(ifi.Cond)) != "" {
+				return true
+			}
+		}
+		return false
+	}
+	if has(f) {
+		return f.Blocks
+	}
+	var out []*ssa.BasicBlock
+	seen := map[*ssa.Function]bool{}
+	for _, ci := range nfAllCalls(f) {
+		if g := nfBody(ci, f); g != nil && !seen[g] && has(g) {
+			seen[g] = true
+			out = append(out, g.Blocks...)
+		}
+	}
+	return out
+}
+
 func stripNot(v ssa.Value) ssa.Value {
 	for {
 		u, ok := v.(*ssa.UnOp)
@@ -593,7 +634,7 @@ func c03Merge(c *eng.Ctx) {
 				nils = append(nils, st)
 			}
 		}
-		ins := instrsOf(eng.Calls(f, `go-radix\.Tree\)\.Insert$`))
+		ins := gcIns(f, `go-radix\.Tree\)\.Insert$`)
 		if len(pd) > 0 {
 			if h := eng.Reach(eng.Query{Fn: f, StartEdges: pd, Barriers: nils, Target: eng.IsTarget(ins)}); h != nil {
 				c.Violation(f, "deny drops "+fld, h.Instr.Pos(), "a denying rule is merged without clearing "+fld, h.Witness)
@@ -805,7 +846,7 @@ func c03Comparator(c *eng.Ctx) {
 			lastRets = append(lastRets, r)
 		}
 	}
-	c.Before(f, "sort.Slice(candidates, less)", instrsOf(eng.Calls(f, `^sort\.Slice$`)), "return of the last candidate", lastRets)
+	c.Before(f, "sort.Slice(candidates, less)", gcIns(f, `^sort\.Slice$`), "return of the last candidate", lastRets)
 }
 
 // c03Ownership: the ACL owns everything it mutates.
